@@ -155,6 +155,64 @@ func TestScenarios(t *testing.T) {
 		sc.complete(w1, 0, 0)
 	})
 
+	// A client of a deduplicated task leaves, the task is retried on the
+	// largest size class, and only then the departed client's operation
+	// expires: the remaining client must not be disturbed.
+	scripted(t, tr, next(), "dedup-retry-abandon", &fixedScript{idx: 0, retry: true}, func(sc *scenario) {
+		w := sc.w
+		w.Predeclare("", "p1", nil, 0, 50, []uint32{1, 2})
+		w1 := sc.worker("w1", "h1", "", "p1", 1)
+		w2 := sc.worker("w2", "h2", "", "p1", 2)
+		sc.idle(w1)
+		a := w.StartExecute("c1", find(w, "d1"), "", []string{"a", "t1"}, 0)
+		sc.settle()
+		w.StartExecute("c2", find(w, "d1"), "", []string{"b", "t3"}, 0)
+		sc.settle()
+		w.Cancel(a) // c1 leaves; its operation now has a no-waiter time-out pending
+		sc.settle()
+		w.Advance(3)
+		sc.complete(w1, 0, 1) // fails on the small class: retried on class 2
+		w.Advance(12)         // the departed client's operation expires
+		w.Poke()
+		sc.settle()
+		sc.idle(w2) // the large worker takes the retried task
+		sc.complete(w2, 0, 0)
+		sc.settle()
+	})
+
+	// The stickiness window of a level keeps running while the worker keeps
+	// serving the same invocation (also when that invocation wins on merit
+	// after the window expired), so a later tie goes to the least recently
+	// served sibling.
+	scripted(t, tr, next(), "stickiness-window-not-restarted", &fixedScript{idx: 0}, func(sc *scenario) {
+		w := sc.w
+		w.Predeclare("", "p1", []int{5}, 0, 50, []uint32{1})
+		w1 := sc.worker("w1", "h1", "", "p1", 1)
+		w2 := sc.worker("w2", "h2", "", "p1", 1)
+		// w2 serves invocation b once at t=0 and then stays away
+		w.StartExecute("c0", find(w, "d2"), "", []string{"b", "t3"}, 0)
+		sc.settle()
+		sc.idle(w2)
+		w.StartSynchronize(w2, SyncArgs{State: "completed", Digest: find(w, "d2"), Token: "u0", Duration: 1, PreferIdle: true})
+		sc.settle()
+		// w1 serves invocation a from t=0 on
+		w.StartExecute("c1", find(w, "d1"), "", []string{"a", "t1"}, 0)
+		sc.settle()
+		sc.idle(w1)
+		w.Advance(8) // the window of 5 has expired
+		w.StartExecute("c2", find(w, "d5"), "", []string{"a", "t1"}, 0)
+		sc.settle()
+		sc.complete(w1, 0, 0) // only a is queued: w1 gets d5 on merit, the window must not restart
+		w.StartExecute("c3", find(w, "d6"), "", []string{"a", "t1"}, 0)
+		sc.settle()
+		w.StartExecute("c4", find(w, "d3"), "", []string{"b", "t3"}, 0)
+		sc.settle()
+		w.Advance(2)
+		sc.complete(w1, 0, 0) // tie between a and b: b was served least recently and a's window is long over
+		sc.complete(w1, 0, 0)
+		sc.complete(w1, 0, 0)
+	})
+
 	// Retry on the largest size class with attached duplicate.
 	scripted(t, tr, next(), "retry-largest", &fixedScript{idx: 0, retry: true}, func(sc *scenario) {
 		w := sc.w
